@@ -4,6 +4,12 @@
 //
 //	scrub x<hex>                  -> hex(Scrub(b))
 //	write <x..,x..,...>           -> o=<hex of everything that reached the sink> nl=<1 iff every sink Write ended with '\n'>
+//	                                 Every chunk is handed to Write in ONE scratch array that is overwritten after the call
+//	                                 returns (io.Writer: "Write must not modify the slice data, even temporarily.
+//	                                 Implementations must not retain p." - io.Copy, bufio.Writer and os/exec's copier refill
+//	                                 one buffer for every chunk). The same chunks are also delivered to a second scrubber as
+//	                                 fresh slices that are never touched again; only when that sink's content differs,
+//	                                 " fresh=<hex> fnl=<b>" is appended, and " mod=1" when a Write changed the caller's array.
 //	lwrite <pieces> <cuts>        -> long lines in a compact (replayable) encoding, implementation only: pieces is a comma
 //	                                 list of x<hex> (literal bytes) and w<n>.<k> (n bytes of filler words, phase k:
 //	                                 byte j is ' ' when (j+k)%7 == 6, otherwise 'g'+(j+k)%13); the concatenation is the
@@ -20,6 +26,7 @@
 package main
 
 import (
+	"bytes"
 	"errors"
 	"fmt"
 	"io"
@@ -103,6 +110,82 @@ func (s *sink) Write(p []byte) (int, error) {
 	}
 	s.all = append(s.all, p...)
 	return len(p), nil
+}
+
+// POISON is what the caller's array holds outside the chunk and, after Write has returned, everywhere ('7': a word
+// character, a decimal and a hex digit - bytes read back from a retained slice glue to an address that follows)
+const POISON = '7'
+
+func fill(b []byte) {
+	for i := range b {
+		b[i] = POISON
+	}
+}
+
+// caller owns one scratch array for all its Writes
+type caller struct {
+	scratch  []byte
+	modified bool
+}
+
+func newCaller(maxChunk int) *caller {
+	c := &caller{scratch: make([]byte, maxChunk+16)}
+	fill(c.scratch)
+	return c
+}
+
+// write hands w to ls.Write in the scratch array, checks that the array is as it was, then overwrites it
+func (c *caller) write(ls *safelog.LogScrubber, w []byte) bool {
+	if len(w) > len(c.scratch)-16 {
+		c.scratch = make([]byte, len(w)+16)
+		fill(c.scratch)
+	}
+	n := copy(c.scratch, w)
+	m, err := ls.Write(c.scratch[:n])
+	if !bytes.Equal(c.scratch[:n], w) {
+		c.modified = true
+	}
+	for _, x := range c.scratch[n:] {
+		if x != POISON {
+			c.modified = true
+		}
+	}
+	fill(c.scratch)
+	return err == nil && m == n
+}
+
+// deliver: chunks through one scratch array (judged) and as fresh, untouched slices (reference)
+func deliver(chunks [][]byte) string {
+	max := 0
+	for _, w := range chunks {
+		if len(w) > max {
+			max = len(w)
+		}
+	}
+	s := &sink{nlOK: true}
+	ls := &safelog.LogScrubber{Output: s}
+	c := newCaller(max)
+	for _, w := range chunks {
+		if !c.write(ls, w) {
+			return "!writeerr"
+		}
+	}
+	f := &sink{nlOK: true}
+	lf := &safelog.LogScrubber{Output: f}
+	for _, w := range chunks {
+		w = append([]byte(nil), w...)
+		if n, err := lf.Write(w); err != nil || n != len(w) {
+			return "!writeerr"
+		}
+	}
+	res := "o=" + hexOrDash(s.all) + " nl=" + flag(s.nlOK)
+	if !bytes.Equal(s.all, f.all) || s.nlOK != f.nlOK {
+		res += " fresh=" + hexOrDash(f.all) + " fnl=" + flag(f.nlOK)
+	}
+	if c.modified {
+		res += " mod=1"
+	}
+	return res
 }
 
 func flag(b bool) string {
@@ -261,28 +344,18 @@ func handle(args []string) string {
 		if !ok {
 			return "!badcase"
 		}
-		s := &sink{nlOK: true}
-		ls := &safelog.LogScrubber{Output: s}
+		var chunks [][]byte
 		prev := 0
-		write := func(w []byte) bool {
-			w = append([]byte(nil), w...) // the caller may reuse its slice after Write returns
-			n, err := ls.Write(w)
-			return err == nil && n == len(w)
-		}
 		for _, c := range wire.List(args[2]) {
 			cut, err := strconv.Atoi(c)
 			if err != nil || cut < prev || cut > len(st) {
 				return "!badcase"
 			}
-			if !write(st[prev:cut]) {
-				return "!writeerr"
-			}
+			chunks = append(chunks, st[prev:cut])
 			prev = cut
 		}
-		if !write(st[prev:]) {
-			return "!writeerr"
-		}
-		return "o=" + hexOrDash(s.all) + " nl=" + flag(s.nlOK)
+		chunks = append(chunks, st[prev:])
+		return deliver(chunks)
 	}
 	if len(args) != 2 {
 		return "!badcase"
@@ -302,36 +375,37 @@ func handle(args []string) string {
 		in := append([]byte(nil), b...)
 		return hexOrDash(safelog.Scrub(in))
 	case "write":
-		s := &sink{nlOK: true}
-		ls := &safelog.LogScrubber{Output: s}
-		for _, w := range payloads(args[1]) {
-			n, err := ls.Write(w)
-			if err != nil || n != len(w) {
-				return "!writeerr"
-			}
-		}
-		return "o=" + hexOrDash(s.all) + " nl=" + flag(s.nlOK)
+		return deliver(payloads(args[1]))
 	case "conc":
 		s := &sink{nlOK: true}
 		ls := &safelog.LogScrubber{Output: s}
 		var wg sync.WaitGroup
+		var callers []*caller
+		mod := ""
 		start := make(chan struct{})
 		for _, wr := range strings.Split(args[1], ";") {
 			ws := payloads(wr)
+			c := newCaller(0)
+			callers = append(callers, c)
 			wg.Add(1)
 			go func() {
 				defer wg.Done()
 				<-start
 				for _, w := range ws {
-					ls.Write(w)
+					c.write(ls, w)
 				}
 			}()
 		}
 		close(start)
 		wg.Wait()
+		for _, c := range callers {
+			if c.modified {
+				mod = " mod=1"
+			}
+		}
 		lines := strings.SplitAfter(string(s.all), "\n")
 		sort.Strings(lines)
-		return "o=" + hexOrDash([]byte(strings.Join(lines, ""))) + " nl=" + flag(s.nlOK)
+		return "o=" + hexOrDash([]byte(strings.Join(lines, ""))) + " nl=" + flag(s.nlOK) + mod
 	}
 	return "!badcase"
 }
